@@ -55,7 +55,10 @@ Contents == { [a |-> [USD |-> 100], b |-> [USD |-> 100]],
               [a |-> [USD |-> 50], b |-> [USD |-> 100, EUR |-> 3]],
               [a |-> [USD |-> -30], b |-> [USD |-> 5]],
               [a |-> [EUR |-> 7], b |-> [USD |-> 100]] }        \* no entry at all for (a, USD)
-Seqs == IF Big THEN {<<s>> : s \in Stmts} \cup {<<s, t>> : s \in Stmts, t \in Stmts} \cup {<<s, t, u>> : s \in Stmts, t \in Stmts, u \in Sends}
+\* (thorough: all singles and pairs; triples whose outer statements are sends of the main asset, the first one of 60)
+Sends60 == {x \in Sends : x.sent.asset.v = S /\ x.sent.amt.v = 60}
+SendsS  == {x \in Sends : x.sent.asset.v = S /\ x.sent.amt.v # 5}
+Seqs == IF Big THEN {<<s>> : s \in Stmts} \cup {<<s, t>> : s \in Stmts, t \in Stmts} \cup {<<s, t, u>> : s \in Sends60, t \in Stmts, u \in SendsS}
         ELSE {<<s, t>> : s \in Stmts, t \in Sends} \cup {<<s, v, t>> : s \in Sends, v \in Saves, t \in Sends}
 
 VARIABLES phase, prog
